@@ -28,6 +28,7 @@ type streamCase struct {
 	SEN    bool // input is SEN (only SEN front-ends compared)
 	SENTok bool // SEN input stays inside sen.md (tokenizer compared too)
 	Padded bool
+	Used   int // history of the parser objects (frontends.go: feUsed)
 	feat   map[string]any
 }
 
@@ -42,7 +43,7 @@ func (c *streamCase) render() any {
 	for _, s := range c.Scheds {
 		ss = append(ss, s.String())
 	}
-	return map[string]any{"family": c.Family, "input": in, "mode": []string{"single", "callback", "channel"}[c.Mode], "schedules": ss, "sweep": c.Sweep}
+	return map[string]any{"family": c.Family, "input": in, "mode": []string{"single", "callback", "channel"}[c.Mode], "schedules": ss, "sweep": c.Sweep, "parser_history": []string{"fresh", "parsed another document before", "previous streamed call failed mid-document", "previous call failed after a complete document"}[c.Used]}
 }
 
 var bom = []byte{0xEF, 0xBB, 0xBF}
@@ -143,7 +144,10 @@ func drawStreamCase(t *rapid.T, forC09 bool) *streamCase {
 	if forC09 {
 		fam = sim.Weighted(t, "family", 0, 8, 0, 0)
 	} else {
-		fam = sim.Weighted(t, "family", 4, 4, 3, 4)
+		fam = sim.Weighted(t, "family", 4, 4, 3, 4, 1)
+		if sim.Intn(t, 4, "usedparser") == 3 {
+			c.Used = 1 + sim.Intn(t, 3, "used")
+		}
 	}
 	switch fam {
 	case 0:
@@ -163,6 +167,13 @@ func drawStreamCase(t *rapid.T, forC09 bool) *streamCase {
 			c.Input = gens.Mutate(t, c.Input)
 		}
 		c.Mode = 1 + sim.Intn(t, 2, "mode")
+	case 4:
+		// no document at all: nothing, white space, a BOM
+		c.Family = "empty"
+		c.Input = []byte([]string{"", " ", "\n", " \t\r\n ", "\xef\xbb\xbf", "\xef\xbb\xbf \n", "\n\n\n\n"}[sim.Intn(t, 7, "empty")])
+		c.SEN = sim.Bool(t, "emptysen")
+		c.SENTok = c.SEN
+		c.Mode = sim.Intn(t, 3, "mode")
 	default:
 		c.Family = "sen"
 		c.SEN = true
@@ -444,7 +455,9 @@ func propC03(cx *sim.Ctx) {
 	sim.Declare([]string{"cut_inside_string", "cut_inside_number", "cut_inside_literal", "cut_inside_whitespace", "cut_inside_unicode_escape", "cut_between_escape_pair", "cut_right_after_backslash", "cut_after_open_quote", "cut_after_minus", "cut_after_dot", "cut_after_e", "cut_after_exp_sign", "cut_right_after_newline", "cut_between_cr_lf", "cut_inside_bom", "cut_at_4096_multiple", "cut_at_4096_in_string", "cut_at_4096_in_number", "strict_json_vs_sen", "both_error_delivered_prefix_differs"}, []string{})
 	c := drawStreamCase(cx.T, false)
 	cx.Render(c.render)
-	cx.Key(c.Input, c.Mode)
+	cx.Key(c.Input, c.Mode, c.Used)
+	feUsed = c.Used
+	defer func() { feUsed = 0 }()
 	for _, s := range c.Scheds {
 		cx.Key(s.String())
 	}
